@@ -28,45 +28,46 @@ CHECKS = {
         text="Static: every reader/writer pair of the layer-2/3 PDUs (13 classes, 48 discriminator branches) is analysed by abstract interpretation on a symbolic wire: per reader branch the object is "
              "built through the real constructor, the writer is run on it and each output position is compared with the wire bit it must reproduce (decode-then-encode), then all fields are replaced by "
              "symbols to find field bits that are transmitted but not decoded; crashes (Type/Attribute/Overflow errors for all or some inputs) are reported, with the ValueError exit of an enumeration that raises for undefined values as a reader path of its own (a handler that swallows it is seen); "
-             "the UDP/IPv4 compressed header is checked against its pinned layout (extended headers present iff SPID / DPID is 0); element enumerations are evaluated over their whole bit width for totality. Decides layout symmetry for all field values at once; float quantisation of GPS Info is not decided.",
+             "the UDP/IPv4 compressed header is checked against its pinned layout (extended headers present iff SPID / DPID is 0); element enumerations are evaluated over their whole bit width for totality, and every member of a wire enumeration must serialise (a member whose value is not an integer is reported). Decides layout symmetry for all field values at once; float quantisation of GPS Info is not decided.",
         technique="abstract interpretation over GF(2)-affine bit forms with path enumeration on discriminators (trace partitioning); finite-domain evaluation of enum _missing_",
         note="trusted: CPython ast, bitarray/int operation models, enum fields assumed to hold defined members on the symmetric pass",
         ref="DESIGN.md §3 C03"),
     "C04": dict(
         text="Static: per constructor path the value of each 'ok' indicator is obtained as a constant or a structural condition; FEC words: accepted set == codeword set on every path (GF(2) rank argument); "
              "CRC PDUs: computed side covers every transmitted field bit, uses the PDU's own mask and inversion, is compared with exactly the received check bits, no path accepts without comparing "
-             "(in-band sentinel), generate->serialise->parse gives a provably True indicator. 12 sentinel findings are known (API-level) and listed in known_findings.json.",
+             "(in-band sentinel), generate->serialise->parse gives a provably True indicator (through the constructor where the reader never generates); slot type / EMB: for every value of the information bits (folded enumeration values included) the accepted check values are exactly those that make the RECEIVED word a codeword; "
+             "CRC PDUs: the serialised check field carries the computed value msb-first behind the protected bits (the placement for which the CRC's burst guarantee holds across the boundary). 15 findings are known and listed in known_findings.json: the constructors' in-band sentinel of 8 CRC PDUs and 7 lsb-first / leading check-field placements (serialised formats).",
         technique="abstract interpretation over GF(2)-affine bit forms; CRC engines as uninterpreted functions; linear algebra on path constraints",
-        note="trusted: C05/C06 verdicts for the engines behind the summaries; error-detection capability follows from coverage + C05 and is not enumerated per error pattern; HRNP checksum is covered under C12",
+        note="trusted: C05/C06 verdicts for the engines behind the summaries; the weight-<=3 clause as such is not enumerated (it needs the code's distance at the PDU's length); burst detection across the data / check boundary is decided through check/field-order; HRNP checksum is covered under C12",
         ref="DESIGN.md §3 C04"),
     "C05": dict(
         text="Static: CRC parameters and masks folded and compared with pinned ETSI values; the real register classes are analysed by abstract interpretation over GF(2)-affine forms "
              "(exact if-conversion of the shift/xor branches; lookup table obtained by constant evaluation and indexed exactly because it is GF(2)-linear): for all five configurations, both modes "
              "and every analysed message length the checksum equals message(x)*x^w mod g(x) for ALL messages of that length, with one calculator reused across lengths (history independence); "
-             "front ends (inversion, mask, byte swap/bit order, parts assembly, check==calculate==given) are decided on top of the real engine.",
+             "front ends (inversion, mask, byte swap/bit order, parts assembly, check==calculate==given; a check() that refuses some received value of the field's own width instead of comparing it is reported) are decided on top of the real engine.",
         technique="constant folding; abstract interpretation over GF(2)-affine forms with if-conversion and linear-table lookup",
-        note="trusted: CPython ast, bitarray operation models (endianness, shifts, lexicographic compare); lengths analysed are listed in the evidence (quick: 26 lengths up to 96 bits, thorough: 1..129,144,192); burst/3-bit detection follows from the remainder property and is not separately checked",
+        note="trusted: CPython ast, bitarray operation models (endianness, shifts, lexicographic compare); lengths analysed are listed in the evidence (quick: 26 lengths up to 96 bits, thorough: 1..129,144,192); burst detection inside a PDU additionally needs the check field placed msb-first behind the data (C04 check/field-order); distances at PDU length are not computed",
         ref="DESIGN.md §3 C05"),
     "C06": dict(
         text="Static, exhaustive over the finite tables: each generator matrix is folded from the source and checked with the checker's own GF(2) algebra "
              "(systematic, rank, weight of all 2^k codewords, H=[P^T|I], distinct columns, SEC-DED); generate/check/check_and_correct are analysed by abstract "
              "interpretation of the real methods for all messages at once (generate(x)=x*G, acceptance condition equivalent to H*w=0 with no codeword excluded by a special case, check(generate(x)) true on every path, every single error repaired, "
-             "every double error of (16,11,4) reported).",
+             "every double error of (16,11,4) reported); a checker with several accepting paths is counted exactly (disjoint affine sets inside the code whose sizes add up to 2^k).",
         technique="constant folding + GF(2) table algebra (exhaustive); abstract interpretation over GF(2)-affine forms",
         note="trusted: CPython ast, sa/algebra.py, numpy/bitarray operation models, pinned ETSI matrices in spec/fec_matrices.json",
         ref="DESIGN.md §3 C06"),
     "C07": dict(
         text="Static: the generator's block-size tables are folded and compared with the Rate*DataTypes members and resolve(); for each rate x mode x analysed payload length the real pipeline "
              "(generate_full_data_transmission -> Burst.as_bytes -> Burst.from_bytes -> Transmission.process_packet with an effect-recording observer) is analysed by abstract interpretation with symbolic payload octets: "
-             "one start + one data end, received data == payload atoms + announced zero pad, CRC-32 == uninterpreted CRC32 of that data in transmitted byte order, confirmed CRC-9 indicators provably True, "
+             "one start + one data end, the fragmentation is the minimal one (the pad never fills a whole intermediate block; every rate / mode has a pad-0 length among the analysed ones), received data == payload atoms + announced zero pad, CRC-32 == uninterpreted CRC32 of that data in transmitted byte order, confirmed CRC-9 indicators provably True, "
              "exact preamble countdown; plus two transmissions back to back on one tracker. Plus generate_csbk_preambles interpreted alone up to totals of 255 (8-bit blocks-to-follow field): preamble j announces exactly the bursts that follow.",
         technique="constant folding; abstract interpretation of the whole generate/serialise/parse/track pipeline over GF(2)-affine forms, per analysed length",
-        note="trusted: C02/C05/C10 for BPTC, CRC engines (uninterpreted) and trellis (inverse pair); lengths analysed are listed in the evidence (quick 24 lengths up to 60 octets, thorough 0..129,255..257,400); other lengths are not decided",
+        note="trusted: C02/C05/C10 for BPTC, CRC engines (uninterpreted) and trellis (inverse pair); lengths analysed are listed in the evidence (quick 27 lengths up to 60 octets, thorough 0..129,255..257,400); other lengths are not decided",
         ref="DESIGN.md §3 C07"),
     "C08": dict(
         text="Static, inductive over histories: for every tracker state satisfying the state invariant and every next burst kind (with the decoded PDU's decision fields symbolic) the real Transmission.process_packet is analysed with observers as "
              "effect stubs: never raises, ended(K) only while K is open, the ended event hands over the current header and the very blocks list, afterwards idle with fresh list / no header / fresh stream id / reset counters, invariant preserved; "
-             "A-F label table (7 previous labels x 3 burst kinds), Timeslot receive-sequence counter exact for all 256 values, observer isolation with raising observers, overrides call super.",
+             "A-F label table (7 previous labels x 3 burst kinds), Timeslot receive-sequence counter exact for all 256 values and the tracker's own (a burst carrying another sequence number does not set it), observer isolation with observers raising an Exception and a BaseException-only kind, overrides call super.",
         technique="abstract interpretation of the state machine on (abstract state) x (burst kind) products with effect recording; inductive state invariant",
         note="trusted: PDU decoders/BPTC stubbed (C02/C03); the invariant enumerates header kinds {none, full LC, data header}; 'never raises' is relative to those stubs",
         ref="DESIGN.md §3 C08"),
@@ -87,16 +88,16 @@ CHECKS = {
     "C11": dict(
         text="Static: GF(2^8) tables folded and compared with the field computed by the checker; log_multiply evaluated exactly in the finite-function domain for all 65 536 operand pairs; "
              "generate/check analysed by abstract interpretation over GF(2)-affine forms of a symbolic message, word and mask (multiplication by a constant is linear): all syndromes of every generated "
-             "word vanish with the mask removed, and the acceptance condition of check is a rank-24 linear system equivalent to the syndrome equations.",
+             "word vanish with the mask removed; check is decided exactly over any number of paths: every accepting path's conditions imply the three syndrome equations, no rejecting path contains a codeword (disequalities included) — a failing side is reported with a concrete witness word found by solving the path's linear system.",
         technique="constant folding + GF(2^8) algebra; finite-function evaluation; abstract interpretation over GF(2)-affine forms",
         note="trusted: CPython ast, sa/algebra.py GF(256) arithmetic, bytes/int operation models",
         ref="DESIGN.md §3 C11"),
     "C12": dict(
         text="Static, shape-seeded: the captured packets in the repository's own tests (hex constants read as data) plus sibling shapes (the captured object re-encoded under every other opcode its service accepts) give object shapes by constant evaluation; "
              "for each shape every scalar/byte field is replaced by symbols and the real as_bytes -> from_bytes -> as_bytes chain is analysed abstractly: every transmitted field bit decoded back, identical re-encoding, HDAP frame rules "
-             "(service|reliable byte, length field in the protocol's endianness, checksum fed with exactly opcode..payload, 0x03, len()), HRNP length field, checksum coverage and checksum field = the value computed over that input (the sum is an uninterpreted function wherever it lives: in verify_checksum or in a helper), carry handling of the HRNP sum by interval analysis, HSTRP option TLV chain; text-format rule for the GPS block; optional-field dereference. Two known findings.",
+             "(service|reliable byte, length field in the protocol's endianness, checksum fed with exactly opcode..payload, 0x03, len()), HRNP length field, checksum coverage and checksum field = the value computed over that input (the sum is an uninterpreted function wherever it lives: in verify_checksum or in a helper), carry handling of the HRNP sum by interval analysis, HSTRP option TLV chain; the verdict of HRNP.verify_checksum by constant evaluation on crafted boundary frames; every (class, opcode) pair of the pinned implemented-opcode table is still written and read back (the five RRS messages are built through the constructor); range assertions on radio-id / request-id fields explored over the whole wire width; text-format rules for the GPS block (reader slices, table-driven or literal, against f-string / format() writers; Literal flags never tested for truthiness); optional-field dereference. Two known findings.",
         technique="abstract interpretation over GF(2)-affine bit forms on shapes obtained by constant evaluation of captured packets; interval analysis of the checksum accumulator; syntax-tree format-width rule",
-        note="trusted: shapes are those of the captures (+siblings) listed in the evidence; checksums are uninterpreted functions of exactly the bytes fed to them (coverage checked, arithmetic not); GPS text block boxed",
+        note="trusted: shapes are those of the captures (+siblings, + constructor-built RRS messages) listed in the evidence; the implemented-opcode table is the reference confirmed on today's tree; checksums are uninterpreted functions of exactly the bytes fed to them (coverage checked, arithmetic not); GPS text block boxed",
         ref="DESIGN.md §3 C12"),
     "C13": dict(
         text="Static: a symbolic well-formed 72-octet frame (576 atoms under affine well-formedness constraints) is decoded by the real from_ipsc_bytes and by from_kaitai on the object produced by the generated Kaitai parser's own _read "
@@ -106,15 +107,16 @@ CHECKS = {
         note="trusted: model of the five KaitaiStream read primitives; Burst constructors stubbed in the from_hytera_ipsc rule (C01); well-formedness = fixed header, replicated colour nibble, zero pad octets, byte-palindromic codes (checked)",
         ref="DESIGN.md §3 C13"),
     "C14": dict(
-        text="Static, integer clauses only: the real write_uintvar / read_uintvar / write_sintvar / read_sintvar are interpreted abstractly on a 32-bit (31-bit magnitude, both signs) SYMBOLIC integer. The writer's bin() digit string makes the analysis fork on the position "
+        text="Static, integer clauses and info-time packing: the real write_uintvar / read_uintvar / write_sintvar / read_sintvar are interpreted abstractly on a 32-bit (31-bit magnitude, both signs) SYMBOLIC integer. The writer's bin() digit string makes the analysis fork on the position "
              "of the leading one (one path per bit length, 32 + 62 paths), every bit below it stays a symbol, so each path decides all values of that length at once: shortest octet count, continuation bits 1..1 0, sign bit, and the reader applied to "
              "prefix | written | trailer (prefix and trailer symbolic) returns exactly the value bits, the sign and the index just past the written octets; out-of-range values hit the writer's assertions. "
-             "The float writers, latitude / longitude / info-time clauses are NOT decided and not claimed.",
+             "Info-time: the real write_infotime is interpreted on a stand-in datetime object with symbolic calendar fields and each field must appear, with all the bits it needs and msb first, exactly in the slice of the 40 bits from which the XML view's f-string reads it. "
+             "The float writers and the latitude / longitude clauses (and info-time given as text) are NOT decided and not claimed.",
         technique="abstract interpretation over GF(2)-affine bit forms with path splitting on the leading-one position (bit-length classes); string-of-digits model for bin()/slices/int(s, 2)",
-        note="partial claim: decides the uintvar / sintvar clauses for all 2^32 / 2^32-1 values; float (value % 1 * 128**p), latitude / longitude / info-time clauses involve binary floating point and are outside the decided part (DESIGN.md §3 C14)",
+        note="partial claim: decides the uintvar / sintvar clauses for all 2^32 / 2^32-1 values and the info-time bit packing for all calendar values; float (value % 1 * 128**p) and latitude / longitude clauses involve binary floating point and are outside the decided part (DESIGN.md §3 C14)",
         ref="DESIGN.md §3 C14"),
     "C15": dict(
-        text="Static: (1) the LRRP token tables against the type dispatch of read_document and write_part (handled by both or rejected by both — a one-sided type must be rejected by the writer or round-trip; single-octet ids, attribute ids defined); (2) every LRRP document id is parsed with the element-token table of its kind (constant evaluation of get_configuration per id); "
+        text="Static: (1) the LRRP token tables against the type dispatch of read_document and write_part (handled by both or rejected by both — a one-sided type must be rejected by the writer or round-trip; single-octet ids, attribute ids defined); (2) every LRRP document id is parsed with the element-token table of its kind (constant evaluation of get_configuration per id) and that configuration is what the parser and the serialiser actually use (document-implementation); "
              "(3) abstract interpretation of the real as_bytes -> from_bytes -> as_bytes chain on document shapes — the captured documents of the tests, their siblings with an inline constant table of 0, 1 and 3 octets, 2-3 documents per buffer, and documents assembled through get_token "
              "for every implemented token x attribute choice and for the same attribute-bearing token twice, with every content octet (opaque ids, coordinates, info-time, uint8, constant table; up to 200-octet values and 340-octet bodies) symbolic: token ids, values, attributes and bytes are restored for all content values at once, "
              "and the reader never branches on content; variable-length numbers are constant-evaluated at boundary values (127/128/16384, 63.5/64.5, negative fractions) only; (4) one process history per order (parse request, parse report, look every token up twice): get_token keeps returning the table entry and the class-level tables are unchanged.",
@@ -123,15 +125,15 @@ CHECKS = {
         ref="DESIGN.md §3 C15"),
     "C16": dict(
         text="Static, shape-seeded (captures of the TMS/ARS tests): per shape all scalar/byte fields symbolic — the 7-bit TMS sequence number and ARS refresh time as bit atoms so that the one/two-octet optional header and reserved-folding enums are decided exactly for all 128 values — "
-             "small enumerations that the owner class only serialises varied over their defined members, the TMS more-headers flag (derived by the serialiser) symbolic — and the real writer/reader chain analysed abstractly: fields restored, identical re-encoding, leading length == octets that follow, len() agrees; per-octet symbolic wire probe (decode-then-encode); non-ASCII identifier variants for the ARS len-value fields.",
+             "small enumerations that the owner class only serialises varied over their defined members, the TMS more-headers flag (derived by the serialiser) symbolic — and the real writer/reader chain analysed abstractly: fields restored, identical re-encoding, leading length == octets that follow, len() agrees; per-octet symbolic wire probe (decode-then-encode); non-ASCII identifier variants for the ARS len-value fields; every boolean constructor flag must survive build -> serialise -> parse for both values; boundary-length variants of the captured shapes (address 127/128/255, message 254/256/400 octets).",
         technique="abstract interpretation over GF(2)-affine / finite-function domains on shapes obtained by constant evaluation of captured packets",
         note="trusted: shapes = captures in okdmr/tests/dmrlib/motorola (+ non-ASCII variants); text content opaque; the reserved header bit that the writer normalises is kept at its captured value",
         ref="DESIGN.md §3 C16"),
     "C17": dict(
         text="Static: every path of the real HSTRP and RRS datagram_received (18 + 65 paths) is enumerated by abstract interpretation with the decoder replaced by 'raises (one path per exception family: AssertionError, ValueError, KeyError, IndexError) | None | HSTRP with symbolic type bits, S/N, payload kind' "
              "and the transport as an effect-recording stub; hstrp_send_ack/heartbeat/rrs_confirm/deepcopy/as_bytes are interpreted for real, so each answer's bytes are bit forms over the request's atoms. Rules over (fixed type bits, effects, final state): "
-             "never raises, acks never answered, exactly one ack with the request's S/N and no payload, heartbeat echo only while connected, connected flag, registry updates, one bounded-S/N confirm per registration. Interval rule: every assignment to the handler's own sequence number maps [0,0xFFFF] into itself (no 2-octet overflow after any history length).",
-        technique="path enumeration by abstract interpretation with symbolic booleans (trace partitioning), effect sequences per path",
+             "never raises, acks never answered, exactly one ack with the request's S/N and no payload, heartbeat echo only while connected, connected flag (in the HSTRP layer and in the RRS layer, whatever the payload), registry updates, one bounded-S/N confirm per registration. Interval rule: every method that assigns the handler's own sequence number maps the invariant [0,0xFFFF] at its entry to the same invariant at each exit (interprocedural interval flow with refinement; no 2-octet overflow after any history length).",
+        technique="path enumeration by abstract interpretation with symbolic booleans (trace partitioning), effect sequences per path; interval analysis of the sequence counter",
         note="trusted: the decoder abstraction (any datagram either is rejected or yields an HSTRP object); 'never raises' is decided for the handler paths under that abstraction, not for the byte-level decoder",
         ref="DESIGN.md §3 C17"),
     "C18": dict(
@@ -144,7 +146,7 @@ CHECKS = {
     "C19": dict(
         text="Static whole-library alias / mutation-effect analysis (sa/effects.py, 620+ functions, fixpoint over the resolved call graph, calling contexts for constant flag arguments): every in-place operation is attributed to the origins of its object — "
              "a parameter, or a process-lifetime object (class-/module-level mutable value, mutable default value, lru_cache result). Rules: no function mutates a process-lifetime object (inventory of ~70 objects and 18 mutable defaults; the CRC singletons are discharged by a "
-             "re-initialised-before-use proof over init/update/digest field sets, MBXML.DEBUG by a diagnostic-only-reads rule, memo stores only when the key determines the value — every input in the backward slice of the stored value is a variable the key preserves); no memoised function hands its mutable result to the caller of an entry point; no class-/module-level one-shot iterator; no codec function mutates a buffer parameter that can come from outside, directly, through an alias or by passing it on "
+             "re-initialised-before-use proof over init/update/digest field sets, MBXML.DEBUG by a diagnostic-only-reads rule, memo stores only when the key determines the value — every input in the backward slice of the stored value is a variable the key preserves); no memoised function hands its mutable result to the caller of an entry point; no class-/module-level one-shot iterator (also when it is the result of a library function that returns one); no codec function mutates a buffer parameter that can come from outside, directly, through an alias or by passing it on "
              "(6 documented in-place helpers listed with reasons, call sites still checked); read-path methods apply no toggling in-place operation to self and keep no memo on the object; no codec function or import-time default expression reaches a clock / random source or the salted builtin hash(). "
              "A probe module with one seeded violation per rule is analysed on every run (positive controls) together with pure twins.",
         technique="flow-sensitive intraprocedural alias analysis with interprocedural mutation / return-alias summaries, field-sensitive shared-origin store, call-graph reachability; must-pass-through + field-set rule for the CRC register",
@@ -153,7 +155,7 @@ CHECKS = {
         ref="DESIGN.md §3 C19"),
     "C20": dict(
         text="Static: ownership rules over the syntax tree (registry writers, read-only lookups, single writer of Repeater.id) plus abstract interpretation of the real storage methods on scenario sequences with symbolic patch values "
-             "(identity of repeated lookups, growth only on auto-create of unseen addresses — another port of a known ip is unseen —, key == record.id coherence, patch touches exactly the named fields of exactly the matched record, also when handed to the creating call or applied twice to one dynamic attribute). Includes re-addressing a record through its own patch() followed by look-ups (no stale look-up memo).",
+             "(identity of repeated lookups, growth only on auto-create of unseen addresses — another port of a known ip is unseen —, key == record.id coherence, patch touches exactly the named fields of exactly the matched record, also when handed to the creating call or applied twice to one dynamic attribute; falsy values False / 0 / '' are set like any other; a patch handed to a look-up of an unseen address without auto-create creates nothing and returns None). Includes re-addressing a record through its own patch() followed by look-ups (no stale look-up memo).",
         technique="syntax-tree ownership / who-may-write rules; abstract interpretation of scenario sequences",
         note="trusted: uuid4 results distinct, name-based uuid5 / uuid3 results a function of their arguments; sequences beyond the analysed scenarios are covered by the ownership rules only",
         ref="DESIGN.md §3 C20"),
